@@ -62,7 +62,7 @@ def plan(tier, seed):
         out += L.split_plan("unordered:U3x1x3", spaces.shape_pairs(3, 1), u3, 25, {"family": "unordered", "costs": v3[:1]})
         # 4-leaf chains on one species, 3 families: cost-response transformations only (scaling x2 / x3, each unit cost + 1)
         out += L.split_plan("unordered:U4chainx1x3/costs", [(sh, None) for sh in spaces.chain_shapes(4)], u3, 40,
-                            {"family": "unordered", "costs": v3[:1], "kinds": ["scale", "mono"]})
+                            {"family": "unordered", "costs": v3[:1], "kinds": ["scale", "mono", "scale_inplace"]})
         # three and four species leaves, one family: clades at the same depth in different halves of the species tree, so
         # that child order decides which of two tied placements a solver visits first
         out += L.split_plan("unordered:U3x4x1", spaces.shape_pairs(3, 4, min_sp=3), spaces.unordered_syntenies(1), 16,
@@ -222,7 +222,11 @@ def solve(algo, family, pres, twice=False, after_other=False, inplace=False):
         fn = reconcile_thl if algo == "thl" else L.SOLVERS[algo][0]
         if after_other:
             list(fn(other_input(inp, S, snode, family), A.POLICY["ALL"]))   # state carried over from another input
-        if inplace:
+        if inplace == "scale":
+            list(fn(inp, A.POLICY["ALL"]))
+            for k_ in list(inp.costs):
+                inp.costs[k_] = inp.costs[k_] * 2       # same input object, same LCA structure, prices doubled in place
+        elif inplace:
             list(fn(inp, A.POLICY["ALL"]))
             inp = reordered_in_place(inp, family)
         outs = list(fn(inp, A.POLICY["ALL"]))
@@ -261,6 +265,7 @@ def transformations(onest, snest, costs, family):
     out.append(("after_other_input_unnamed", "after", {"naming": "unnamed"}))
     # the same tree objects reordered in place after a first solve, a new LCA structure built on them, solved again
     out.append(("reorder_in_place", "inplace", {}))
+    out.append(("scale_x2_in_place", "scale_inplace", {"k": 2}))
     for k in (2, 3):
         out.append((f"scale_x{k}", "scale", {"costs": tuple(c * k if c != INF else INF for c in costs), "k": k}))
     for i, nm in enumerate(("spe", "dup", "hgt", "floss", "sloss")):
@@ -293,7 +298,7 @@ def check_input(algo, family, osh, ssh, leafmap, leafsyn, costs, only=None, kind
         k = kw.pop("k", None)
         p = Pres(kw.get("onest", onest), kw.get("snest", snest), leafmap, leafsyn, kw.get("costs", costs),
                  kw.get("naming", "default"), kw.get("fam", "id"), kw.get("order", "pre"))
-        c1, k1, err = solve(algo, family, p, twice=(kind == "twice"), after_other=(kind == "after"), inplace=(kind == "inplace"))
+        c1, k1, err = solve(algo, family, p, twice=(kind == "twice"), after_other=(kind == "after"), inplace=("scale" if kind == "scale_inplace" else kind == "inplace"))
         runs += 1
         if err:
             bad.append((name, f"{name}: {err}"))
@@ -314,7 +319,7 @@ def check_input(algo, family, osh, ssh, leafmap, leafsyn, costs, only=None, kind
                 bad.append((name, f"{name}: optimal set changed ({len(s0)} -> {len(kept)} solutions off the added species)"))
             elif len(kept) != len(s1) and costs[3] > 0:
                 bad.append((name, f"{name}: {len(s1) - len(kept)} optimal solutions use the added empty species although floss > 0"))
-        elif kind == "scale":
+        elif kind in ("scale", "scale_inplace"):
             want = None if c0 is None else (c0 * k)
             if c1 != want:
                 bad.append((name, f"{name}: minimum {c0} -> {c1}, expected {want}"))
